@@ -367,6 +367,12 @@ serve(objective_type& obj, const Prob& pr, const std::string& kind, int s)
         throw std::runtime_error("accumulate_sub_Hessian_times_input_without_penalty reports failure");
       img();
     }
+  else if (kind == "phess")
+    {
+      if (obj.accumulate_sub_Hessian_times_input(*g, *pr.lambda, *pr.input, s) != Succeeded::yes)
+        throw std::runtime_error("accumulate_sub_Hessian_times_input reports failure");
+      img();
+    }
   else if (kind == "fhess")
     {
       if (obj.accumulate_Hessian_times_input_without_penalty(*g, *pr.lambda, *pr.input) != Succeeded::yes)
@@ -452,7 +458,7 @@ reference(const Prob& pr, const std::string& kind, int s, bool sens_groups_by_no
         {
           w = wm = (row.y > 0 ? row.y / f : 0.);
         }
-      else if (kind == "hess" || kind == "fhess")
+      else if (kind == "hess" || kind == "fhess" || kind == "phess")
         {
           w = row.y > 0 ? -row.y * pv / (f * f) : 0.;
           wm = -w;
@@ -494,6 +500,20 @@ check_against_reference(const Prob& pr, objective_type& obj, const std::string& 
           expect[i] -= (double)*it / pr.num_subsets;
           r.mag[i] += std::fabs((double)*it) / pr.num_subsets;
         }
+    }
+  if (kind == "phess" && pr.use_prior)
+    {
+      // penalised Hessian product = unpenalised one minus the prior's Hessian applied to the SAME input, shared between the subsets
+      shared_ptr<target_type> ph(pr.lambda->get_empty_copy());
+      ph->fill(0.f);
+      obj.get_prior_ptr()->accumulate_Hessian_times_input(*ph, *pr.lambda, *pr.input);
+      size_t i = 0;
+      for (auto it = ph->begin_all(); it != ph->end_all(); ++it, ++i)
+        {
+          expect[i] -= (double)*it / pr.num_subsets;
+          r.mag[i] += std::fabs((double)*it) / pr.num_subsets;
+        }
+      sim::probe("penalised_hessian_product_checked");
     }
   double mmax = 0;
   for (double x : r.mag)
@@ -750,7 +770,7 @@ gen(uint64_t seed, const std::string& tier, long idx)
   p.cfg["prior"] = r.chance(0.4);
   p.cfg["beta"] = r.range(0, 4);
   p.cfg["data_seed"] = (long)r.below(1000000);
-  static const char* kinds[] = { "value", "grad", "gradsens", "sens", "hess", "ahess", "fvalue", "fgrad", "fhess", "pvalue", "pgrad" };
+  static const char* kinds[] = { "value", "grad", "gradsens", "sens", "hess", "ahess", "fvalue", "fgrad", "fhess", "pvalue", "pgrad", "phess" };
   const int nops = (int)r.range(2, thorough ? 16 : 9);
   for (int i = 0; i < nops; ++i)
     {
